@@ -104,6 +104,83 @@ fn lock_hook() -> Option<Arc<dyn LockHook>> {
     LOCK_HOOK.read().unwrap().clone()
 }
 
+/// H9: `std::sync::atomic::AtomicU32` with a scheduling point (`LockHook::point`) before every
+/// operation, so that a controlled scheduler can interleave threads between the atomic accesses
+/// of the route-id counter.
+pub mod atomic {
+    pub use std::sync::atomic::Ordering;
+
+    pub struct AtomicU32(std::sync::atomic::AtomicU32);
+
+    impl AtomicU32 {
+        pub const fn new(v: u32) -> Self {
+            Self(std::sync::atomic::AtomicU32::new(v))
+        }
+        pub fn load(&self, order: Ordering) -> u32 {
+            super::point("atomic");
+            self.0.load(order)
+        }
+        pub fn store(&self, v: u32, order: Ordering) {
+            super::point("atomic");
+            self.0.store(v, order)
+        }
+        pub fn swap(&self, v: u32, order: Ordering) -> u32 {
+            super::point("atomic");
+            self.0.swap(v, order)
+        }
+        pub fn fetch_add(&self, v: u32, order: Ordering) -> u32 {
+            super::point("atomic");
+            self.0.fetch_add(v, order)
+        }
+        pub fn fetch_sub(&self, v: u32, order: Ordering) -> u32 {
+            super::point("atomic");
+            self.0.fetch_sub(v, order)
+        }
+        pub fn fetch_max(&self, v: u32, order: Ordering) -> u32 {
+            super::point("atomic");
+            self.0.fetch_max(v, order)
+        }
+        pub fn compare_exchange(
+            &self,
+            current: u32,
+            new: u32,
+            success: Ordering,
+            failure: Ordering,
+        ) -> Result<u32, u32> {
+            super::point("atomic");
+            self.0.compare_exchange(current, new, success, failure)
+        }
+        pub fn compare_exchange_weak(
+            &self,
+            current: u32,
+            new: u32,
+            success: Ordering,
+            failure: Ordering,
+        ) -> Result<u32, u32> {
+            super::point("atomic");
+            self.0.compare_exchange(current, new, success, failure)
+        }
+        pub fn fetch_update<F>(
+            &self,
+            set_order: Ordering,
+            fetch_order: Ordering,
+            mut f: F,
+        ) -> Result<u32, u32>
+        where
+            F: FnMut(u32) -> Option<u32>,
+        {
+            let mut prev = self.load(fetch_order);
+            while let Some(next) = f(prev) {
+                match self.compare_exchange(prev, next, set_order, fetch_order) {
+                    Ok(x) => return Ok(x),
+                    Err(now) => prev = now,
+                }
+            }
+            Err(prev)
+        }
+    }
+}
+
 pub(crate) fn point(tag: &'static str) {
     if let Some(hook) = lock_hook() {
         hook.point(tag);
